@@ -364,6 +364,21 @@ def _run_case(spec):
             if spec.get('flags') == 'random':
                 for k in ('train_features', 'train_rf', 'train_dilation'):
                     setattr(pit, k, True)
+            # round trip: the exported network is itself a legal model: import it again, prune, export, compare
+            if seed % 4 == 0 and style != 'open' and not a.get('export_error'):
+                try:
+                    kw2 = {'input_shape': in_shapes[0]} if len(in_shapes) == 1 else {'input_example': example}
+                    with torch.no_grad():
+                        e.eval()
+                        pit2 = PIT(e, **kw2).eval()
+                        pitgen.set_masks(pit2, rng, 'mixed')
+                        z2 = pitgen.merge_out(pit2(*xs))
+                        e2 = pit2.export().eval()
+                        pitgen.copy_bn_stats(pit2, e2)
+                        z3 = pitgen.merge_out(e2(*xs))
+                    a['reimport_diff'] = _allclose(z2, z3)
+                except Exception as ex:
+                    a['reimport_error'] = '%s: %s' % (type(ex).__name__, str(ex)[:200])
             a['assign_done'] = True
             res['assign'].append(a)
     except Exception as ex:
